@@ -18,7 +18,8 @@ CLAIM = ("Decides only the clause 'can be evaluated with each backend they adver
          "rate-equation clause: with the documented dimensions of its parameters (time, concentration, first/second-order rate constant, feed ratio) "
          "every closed form is dimensionally homogeneous, feeds only dimensionless values to exp/tanh/atanh, and returns concentrations; and each "
          "closed form is algebraically identical (exact rational normal form, temporaries inlined) to the reference solution recorded from the pinned "
-         "tree, i.e. the expressions the upstream notebooks derived for the documented mechanisms.")
+         "tree, i.e. the expressions the upstream notebooks derived for the documented mechanisms."
+         ' Shared rule A1: no swapped same-named arguments at resolved in-package call sites.')
 DOES_NOT_DECIDE = ("that each expression satisfies its rate equation and initial value beyond dimensional consistency (needs symbolic differentiation / simplification: "
                    "solver family): C17-R4 only establishes identity with the recorded reference expressions, not that those solve the rate equations; rewrites that need an "
                    "identity of exp/tanh/sqrt (exp(a+b) = exp(a)*exp(b) ...) are reported as changes; "
